@@ -9,7 +9,7 @@ The family is restricted so that the expectation follows from the property state
   * arrays passed as arguments are changed by element stores only (never push/pop: arrays are slices).
 
 AST (tuples)
-  expr:  ("num", x) ("str", s) ("null",) ("var", name) ("dollar",) ("bin", op, l, r) ("call", fname, [expr])
+  expr:  ("num", x) ("str", s) ("null",) ("var", name) ("dollar",) ("bin", op, l, r) ("call", fname, [expr]) ("asg", name, expr[, parens])
          ("match", expr, [([pat], "expr", expr) | ([pat], "block", [stmt])]) ("arr", [expr]) ("idx", expr, expr) ("okey", expr) = {k: expr, j: 0}.k
   pat:   ("plit", value) ("pname", name) ("parr", [pat])
   stmt:  ("assign", name, expr) ("idxassign", name, expr, expr) ("incr", name) ("print", [expr]) ("expr", expr)
@@ -51,6 +51,9 @@ def src_expr(e):
         return src_expr(e[1]) + "[" + src_expr(e[2]) + "]"
     if t == "okey":
         return "({k: " + src_expr(e[1]) + ", j: 0}.k)"       # parenthesised: a match body that starts with "{" is a block
+    if t == "asg":
+        # an assignment used as an expression; e[3]: write the parentheses (needed wherever an operator follows or precedes)
+        return ("(%s = %s)" if (len(e) > 3 and e[3]) else "%s = %s") % (e[1], src_expr(e[2]))
     if t == "match":
         cases = []
         for pats, kind, body in e[2]:
@@ -224,6 +227,10 @@ class Interp:
             raise TooDeep()     # outside the family
         if t == "okey":
             return self.ev(e[1])
+        if t == "asg":
+            v = self.ev(e[2])
+            self.set(e[1], v)       # an unknown name is created in the frame that is current where the assignment is written
+            return v
         if t == "call":
             return self.call(e[1], [self.ev(a) for a in e[2]])
         if t == "match":
